@@ -4,11 +4,13 @@
    Built on Model/RREntries.v (entry codecs, static lengths), Model/RRWalk.v (rr_entries, entries_list =
    RockRidge._record, record_entries) and Model/LongNames.v (nm_split = the pieces of _add_name,
    sl_tokens = the trace of the for/while loops of _new_symlink).  Definitions only; proofs are in
-   Proofs/RRPlaceProofs.v (general) and Proofs/RRPlaceCases.v (witnesses of the refuted statements).
+   Proofs/RRPlaceSLProofs.v (the two splitting stages), Proofs/RRPlaceProofs.v, Proofs/RRPlaceProofs2.v (the
+   theorems) and Proofs/RRPlaceCases.v (witnesses of the refuted statements, examples against the real library).
 
      the repeated block `if curr_dr_len + thislen > ALLOWED_DR_SIZE: if ce_record is None: return -1;
         ce_record.add_record(thislen); ce_entries.x = new  else: curr_dr_len += thislen; dr_entries.x = new`
                                                -> put / put_if       state = (curr_dr_len, len_cont_area)
+                                                  (PX and TF, which are always created, are put_if true)
      RockRidge._add_name                       -> nm_stage
      RockRidge._new_symlink                    -> sl_group (tokens -> in-memory RRSLRecords) / sl_stage
      RockRidge._assign_entries                 -> assign  (order: SP RR NM PX SL TF CL RE PL ER)
@@ -17,13 +19,13 @@
 
    How the mutation is rendered.  Every entry kind is created at most once per pass, so instead of a
    sequence of assignments to dr_entries / ce_entries the model remembers for each kind where it went
-   (option bool: None = not created, Some true = dr_entries, Some false = ce_entries) and builds the two
-   RockRidgeEntries objects at the end (pick).  On a -1 return `new` throws both objects away, so partial
+   (record wheres; option bool: None = not created, Some true = dr_entries, Some false = ce_entries) and builds
+   the two RockRidgeEntries objects at the end (side_entries / pick).  On a -1 return `new` throws both objects away, so partial
    states never escape.  rr_record.append_field(..) mutates the shared RR object after it was placed and has
    no influence on placement: the final flag byte (rr_flags_of) is computed when the entry is created.
    curr_sl.add_component raising 'Symlink would be longer than 255' is checked on the finished records
    (current_length only grows, so some call raises iff a finished record is longer than 255); it never
-   fires (RRPlaceProofs.sl_stage_guard).  ce_record.add_record on a missing CE entry (first pass) is
+   fires (RRPlaceSLProofs.sl_guard).  ce_record.add_record on a missing CE entry (first pass) is
    skipped exactly where the code tests `ce_record is not None`.
 
    Not modelled: `attributes` (always {} in pycdlib's own calls: no AL entries), the `_initialized` flags,
@@ -177,29 +179,35 @@ Definition tf_of (i : place_in) : tf_rec :=
 Definition px_of (i : place_in) : px_rec := mk_px (p_mode i) 1 0 0 0.
 Definition pickb (w : option bool) (side : bool) : bool := is_some (pick w side tt).
 
+(* where each singleton kind went (None = not created) *)
+Record wheres := mk_wh { w_sp : option bool; w_rr : option bool; w_px : option bool; w_tf : option bool;
+                         w_cl : option bool; w_re : option bool; w_pl : option bool; w_er : option bool }.
+(* the RockRidgeEntries object of side d (true = dr_entries) *)
+Definition side_entries (i : place_in) (ws : wheres) (d : bool) (nm : list nm_rec) (sl : list sl_rec)
+                        (ce : option ce_rec) : rr_entries :=
+  mk_entries (pick (w_sp ws) d (p_skip i)) (pick (w_rr ws) d (rr_flags_of i)) ce (pick (w_px ws) d (px_of i))
+             (pick (w_er ws) d (er_of (p_v i))) [] None sl nm (pick (w_cl ws) d 0) (pick (w_pl ws) d 0)
+             (pick (w_tf ws) d (tf_of i)) None (pickb (w_re ws) d) false [] [].
+Definition er_len (v : rrv) : Z := len_er (er_id (er_of v)) (er_des (er_of v)) (er_src (er_of v)).
+
 Definition assign (i : place_in) (has_ce : bool) (cur0 : Z) : option placed :=
   let v := p_v i in
-  match put_if (p_first i) has_ce len_sp (cur0, 0) with None => None | Some (w_sp, s1) =>
-  match put_if (is_v109 v) has_ce len_rr s1 with None => None | Some (w_rr, s2) =>
+  match put_if (p_first i) has_ce len_sp (cur0, 0) with None => None | Some (wsp, s1) =>
+  match put_if (is_v109 v) has_ce len_rr s1 with None => None | Some (wrr, s2) =>
   match (if nonempty (p_name i) then nm_stage has_ce (p_name i) s2 else Some (([], []), s2)) with
   | None => None | Some ((nm_d, nm_c), s3) =>
   match len_px v with None => None | Some lpx =>
-  match put has_ce lpx s3 with None => None | Some (w_px, s4) =>
+  match put_if true has_ce lpx s3 with None => None | Some (wpx, s4) =>
   match (if nonempty (target_of i) then sl_stage has_ce (target_of i) s4 else Some (([], []), s4)) with
   | None => None | Some ((sl_d, sl_c), s5) =>
-  match put has_ce (len_tf TF_FLAGS) s5 with None => None | Some (w_tf, s6) =>
-  match put_if (p_child i) has_ce len_link s6 with None => None | Some (w_cl, s7) =>
-  match put_if (p_reloc i) has_ce len_re s7 with None => None | Some (w_re, s8) =>
-  match put_if (p_parent i) has_ce len_link s8 with None => None | Some (w_pl, s9) =>
-  let er := er_of v in
-  match put_if (p_first i) has_ce (len_er (er_id er) (er_des er) (er_src er)) s9 with
-  | None => None | Some (w_er, s10) =>
-  let side (d : bool) (nm : list nm_rec) (sl : list sl_rec) (ce : option ce_rec) : rr_entries :=
-    mk_entries (pick w_sp d (p_skip i)) (pick w_rr d (rr_flags_of i)) ce (pick (Some w_px) d (px_of i))
-               (pick w_er d er) [] None sl nm (pick w_cl d 0) (pick w_pl d 0)
-               (pick (Some w_tf) d (tf_of i)) None (pickb w_re d) false [] [] in
-  Some (mk_placed (side true nm_d sl_d (if has_ce then Some (mk_ce 0 0 (snd s10)) else None))
-                  (side false nm_c sl_c None) (fst s10) (snd s10))
+  match put_if true has_ce (len_tf TF_FLAGS) s5 with None => None | Some (wtf, s6) =>
+  match put_if (p_child i) has_ce len_link s6 with None => None | Some (wcl, s7) =>
+  match put_if (p_reloc i) has_ce len_re s7 with None => None | Some (wre, s8) =>
+  match put_if (p_parent i) has_ce len_link s8 with None => None | Some (wpl, s9) =>
+  match put_if (p_first i) has_ce (er_len v) s9 with None => None | Some (wer, s10) =>
+  let ws := mk_wh wsp wrr wpx wtf wcl wre wpl wer in
+  Some (mk_placed (side_entries i ws true nm_d sl_d (if has_ce then Some (mk_ce 0 0 (snd s10)) else None))
+                  (side_entries i ws false nm_c sl_c None) (fst s10) (snd s10))
   end end end end end end end end end end end.
 
 (* ---- RockRidge.new --------------------------------------------------------------------------- *)
@@ -228,9 +236,19 @@ Definition rr_new_args (dr_len : Z) (xa : bool) : option (Z * Z) :=
 (* what an RRIP reader walks: the record's own area, then the continuation area when a CE entry points to it *)
 Definition visible (r : placed) : list su_entry :=
   entries_list (pl_dr r) ++ (if is_some (ce_record (pl_dr r)) then entries_list (pl_ce r) else []).
+Definition sl_of (es : list su_entry) : list sl_rec :=
+  flat_map (fun e => match e with E_SL s => [s] | _ => [] end) es.
+Definition nm_list (es : list su_entry) : list nm_rec :=
+  flat_map (fun e => match e with E_NM n => [n] | _ => [] end) es.
+(* the on-disk reading of an SL entry as a LongNames record: (CONTINUE flag, components by flag byte) *)
+Definition sl_view (s : sl_rec) : bool * list LongNames.comp :=
+  (Z.odd (sl_flags s), map (fun c => LongNames.pair_comp (c_flags c, c_data c)) (sl_comps s)).
+(* the symlink target and the name an RRIP reader (LongNames.sl_reassemble / nm_join) gets *)
+Definition read_target (r : placed) : list Z := LongNames.sl_reassemble (map sl_view (sl_of (visible r))).
+Definition read_name (r : placed) : list Z :=
+  LongNames.nm_join (map (fun n => (nm_flags n, nm_name n)) (nm_list (visible r))).
 (* the first-pass condition in closed form (without symlink: the sum of the static lengths fits) *)
 Definition opt_len (b : bool) (l : Z) : Z := if b then l else 0.
-Definition er_len (v : rrv) : Z := len_er (er_id (er_of v)) (er_des (er_of v)) (er_src (er_of v)).
 Definition px_len (v : rrv) : Z := match len_px v with Some l => l | None => 0 end.
 Definition before_sl (i : place_in) : Z :=
   p_dr_len i + opt_len (p_first i) len_sp + opt_len (is_v109 (p_v i)) len_rr
